@@ -136,6 +136,10 @@ def struct_eq(a, b, memo=None, ignore_attrs=('_valid', '_parsable')):
         return a.ecls == b.ecls and i_cmp('==', a.index, b.index)
     if isinstance(a, PSlice) and isinstance(b, PSlice):
         return b_and(struct_eq(a.start, b.start), struct_eq(a.stop, b.stop), struct_eq(a.step, b.step))
+    if type(a).__name__ == 'ClassRef' and type(b).__name__ == 'ClassRef':
+        return a.name == b.name
+    if type(a).__name__ in ('AbsAny', 'UStr', 'AbsVal') and type(a) is type(b):
+        return True if a.term.eq(b.term) else (a.term == b.term)
     return False
 
 
